@@ -55,7 +55,7 @@ def vectors(ctx):
     for i, j in pairs56:
         add(xor(unit(7, i), unit(7, j)), 0, tag="two")
     # (4) encode=True must ignore the last 24 bits and give the closing parity
-    nrand = ctx.pick(4000, 200000)
+    nrand = ctx.pick(4000, 800000)
     for k in range(nrand // 4):
         n = 14 if k % 3 else 7
         d = [rng.randrange(256) for _ in range(n - 3)]
@@ -77,7 +77,7 @@ def vectors(ctx):
     # (6) error injection into valid frames: weight 1..5 and bursts <= 24 at every offset
     bases = []
     for n in (14, 7):
-        for _ in range(ctx.pick(2, 12)):
+        for _ in range(ctx.pick(2, 30)):
             bases.append(gen.with_parity([rng.randrange(256) for _ in range(n - 3)]))
     smp = gen.sample_frames("adsb")
     if smp:
